@@ -210,5 +210,12 @@ func HarnessRange416Retry() {
 		vAssert(contacted, "c04.unstorable-response-reused")
 	} else {
 		vReach("storable")
+		// the stored lifetime is the one the retried 200 announced, not the 416's
+		if ccs[ci] == "max-age=60" {
+			m, _, err := e.p.cache.GetMetadata(cache.MakeFromRequest(newReq("GET", "o.test", "/q", "", nil)))
+			if err == nil {
+				vAssert(m.Expires.Sub(m.TimeWritten) == 60*time.Second, "c03.stored-lifetime-not-the-announced-one")
+			}
+		}
 	}
 }
